@@ -2,6 +2,7 @@ package main
 
 import (
 	"fmt"
+	"strings"
 
 	"github.com/cybergarage/go-redis/redis/proto"
 	"verif/gen"
@@ -42,6 +43,29 @@ func c02seq(idx int) []resp.Value {
 			vs = append(vs, gen.Tree(r, gen.Opt{MaxBulk: max, MaxArity: 6, MaxDepth: 3}, 0))
 		}
 	}
+	// every 10th sequence is long and made of tiny values, many of them empty arrays (alone and as elements),
+	// followed by properly nested ones: state a parser keeps from value to value accumulates here
+	if idx%10 == 7 {
+		m := 130 + r.Intn(300)
+		for i := 0; i < m; i++ {
+			switch r.Intn(5) {
+			case 0, 1:
+				vs = append(vs, resp.Array())
+			case 2:
+				vs = append(vs, resp.Array(resp.Array(), resp.Array(), resp.Int(int64(i))))
+			case 3:
+				vs = append(vs, resp.Array(resp.Array(resp.Array(resp.BulkS("x")))))
+			default:
+				vs = append(vs, resp.Status("s"))
+			}
+		}
+		wide := resp.Array()
+		for i := 0; i < 129+r.Intn(40); i++ {
+			wide.A = append(wide.A, resp.Array())
+		}
+		wide.A = append(wide.A, resp.Array(resp.Array(resp.BulkS("deep"))))
+		vs = append(vs, wide, resp.Array(resp.Array(resp.Array(resp.Int(1)))))
+	}
 	// every 10th sequence carries one large bulk (around the 64 KiB mark and beyond) in the middle, so that
 	// buffer-growth and read-ahead paths are exercised with data of the following value already available
 	if idx%10 == 3 {
@@ -55,6 +79,13 @@ func c02seq(idx int) []resp.Value {
 		vs = append(vs, resp.Cmd("GET", "after-the-large-value"))
 	}
 	vs = append(vs, resp.Int(int64(idx)))
+	// what the stream ends in decides which read meets the end of stream: a line, a bulk payload, or a command
+	switch idx % 3 {
+	case 1:
+		vs = append(vs, resp.Cmd("ECHO", fmt.Sprint("last-", idx)))
+	case 2:
+		vs = append(vs, resp.Bulk(gen.BulkPayload(r, 40)))
+	}
 	return vs
 }
 
@@ -171,8 +202,8 @@ func randomCuts(r *rng.R, n int, k int) []int {
 }
 
 // parseAll reads values until end of stream through a scripted reader.
-func c02parse(chunks [][]byte, want []resp.Value) (clause, detail string, readHash uint64) {
-	c := sconn.New(sconn.Script{Chunks: chunks, End: sconn.EOF})
+func c02parse(chunks [][]byte, want []resp.Value, eofWithData bool) (clause, detail string, readHash uint64) {
+	c := sconn.New(sconn.Script{Chunks: chunks, End: sconn.EOF, EOFWithData: eofWithData})
 	p := proto.NewParserWithReader(c)
 	for i, w := range want {
 		m, err := p.Next()
@@ -235,6 +266,9 @@ func c02run(idx int) run.Result {
 		if large && (cls[o] == 'B' || cls[o] == 'L') && !r.Chance(1, 40) {
 			continue
 		}
+		if len(vs) > 100 && !r.Chance(1, 30) {
+			continue // long sequences of tiny values: a sample of the split points
+		}
 		scheds = append(scheds, sched{fmt.Sprintf("split@%d", o), chunkAt(stream, []int{o}), string(cls[o])})
 	}
 	nRandom := 32
@@ -245,8 +279,16 @@ func c02run(idx int) run.Result {
 		cuts := randomCuts(r, len(stream), 2+r.Intn(12))
 		scheds = append(scheds, sched{fmt.Sprintf("random%v", cuts), chunkAt(stream, cuts), "k-way"})
 	}
+	// the same partitions once more with the last byte and the end of stream reported by ONE read
+	for _, s := range scheds[:min(len(scheds), 6)] {
+		scheds = append(scheds, sched{s.name + "+eof-with-last-read", s.chunks, s.class})
+	}
+	if len(stream) > 2 {
+		o := 1 + r.Intn(len(stream)-1)
+		scheds = append(scheds, sched{fmt.Sprintf("split@%d+eof-with-last-read", o), chunkAt(stream, []int{o}), string(cls[o])})
+	}
 	for _, s := range scheds {
-		clause, detail, rh := c02parse(s.chunks, vs)
+		clause, detail, rh := c02parse(s.chunks, vs, strings.HasSuffix(s.name, "+eof-with-last-read"))
 		res.Count("schedules", 1)
 		if s.class != "" {
 			res.Count("split:"+splitName(s.class), 1)
@@ -304,7 +346,7 @@ func init() {
 	run.Register(&run.Prop{
 		ID: "C02", Level: "exploration",
 		Rule: func(tier string) string {
-			return "case = one sequence of 1..6 generated values plus a sentinel integer, parsed through proto.NewParserWithReader over a scripted reader under: whole delivery, 1-byte, 2-byte at both parities, 3-byte, every 2-way split point (all offsets for streams <=400 bytes; all structural offsets and a sample of payload offsets beyond) and 32 random k-way partitions; verdict = exactly those values in order, then (nil,nil). distinct_nontrivial counts distinct (sequence, served read-size sequence) pairs other than whole delivery; counters split:* classify where the split fell"
+			return "case = one sequence of 1..6 generated values plus a sentinel integer, ending in that integer, in a command array or in a bulk string (every tenth sequence carries a bulk around 64 KiB, every tenth is 130..430 tiny values - empty arrays alone and as elements, small nested arrays - ending in an array of >= 129 empty arrays and a nested one), parsed through proto.NewParserWithReader over a scripted reader under: whole delivery, 1-byte, 2-byte at both parities, 3-byte, every 2-way split point (all offsets for streams <=400 bytes; all structural offsets and a sample of payload offsets beyond) and 32 random k-way partitions, and seven of these partitions once more with the last byte and the end of stream reported by one and the same read (n>0 together with io.EOF); verdict = exactly those values in order, then (nil,nil). distinct_nontrivial counts distinct (sequence, served read-size sequence) pairs other than whole delivery; counters split:* classify where the split fell"
 		},
 		Assumptions: []string{"only (n>0,nil) and (0,err) read results are produced, as a net.Conn does", "independent codec resp is correct"},
 		Setup: func(tier string, seed uint64) int {
